@@ -135,6 +135,13 @@ func (w *World) singleSiteCI(fn *ssa.Function) ssa.CallInstruction {
 					s.single[fn] = ci
 					return ci
 				}
+				// ... or handed to (*sync.Once).Do, which runs it on the spot (the first time)
+				if ci, ok := (*refs)[0].(*ssa.Call); ok {
+					if cal := ci.Call.StaticCallee(); cal != nil && syncCallback(cal) && len(fn.Params) == 0 {
+						s.single[fn] = ci
+						return ci
+					}
+				}
 			}
 		}
 		return nil
@@ -263,6 +270,9 @@ func (w *World) helpersOf(fn *ssa.Function) []*ssa.Function {
 				if h := c.Common().StaticCallee(); h != nil && w.singleSiteCI(h) == c {
 					visit(h)
 				}
+				if h := w.syncCallbackBody(c); h != nil {
+					visit(h)
+				}
 			}
 			// a method value x.m made here and nowhere else: m's body belongs here
 			if mc, ok := in.(*ssa.MakeClosure); ok {
@@ -293,11 +303,35 @@ func (w *World) eachInstrDeep(fn *ssa.Function, f func(ssa.Instruction)) {
 					if h := c.Common().StaticCallee(); h != nil && w.singleSiteCI(h) == c {
 						visit(h)
 					}
+					if h := w.syncCallbackBody(c); h != nil {
+						visit(h)
+					}
 				}
 			}
 		}
 	}
 	visit(fn)
+}
+
+// syncCallbackBody: for once.Do(func(){...}) (the literal made for that call only) the
+// literal's function.
+func (w *World) syncCallbackBody(c ssa.CallInstruction) *ssa.Function {
+	call, ok := c.(*ssa.Call)
+	if !ok {
+		return nil
+	}
+	cal := call.Call.StaticCallee()
+	if cal == nil || !syncCallback(cal) {
+		return nil
+	}
+	for _, a := range call.Call.Args {
+		if mc, isMC := a.(*ssa.MakeClosure); isMC {
+			if body := w.closureBody(mc); body != nil && w.singleSiteCI(body) == c {
+				return body
+			}
+		}
+	}
+	return nil
 }
 
 // translate expresses value v of helper h (an invocation made at call site hc) in the
@@ -567,7 +601,7 @@ func (w *World) helperFacts(hc *ssa.Call, idx int, want string) []Fact {
 				continue
 			}
 			rjv := w.resolveLoad(rj)
-			if ai.definitelyNonNil(rjv) || w.presentEntryOfNonNilTable(rjv, append(w.factsAt(ret), extra...)) {
+			if ai.definitelyNonNil(rjv) || w.presentEntryOfNonNilTable(rjv, append(w.factsAt(ret), extra...)) || w.rangeValueOfNonNilMap(rjv) {
 				nf := Fact{Atom{"==", ex, ssa.NewConst(nil, ex.Type())}, false}
 				set[w.factStr(nf)] = nf
 			}
@@ -798,6 +832,9 @@ func (w *World) deepHit(hit func(ssa.Instruction) bool) func(ssa.Instruction) bo
 			return false
 		}
 		h := c.Call.StaticCallee()
+		if b := w.syncCallbackBody(c); b != nil {
+			h = b // once.Do(f): the first call runs f
+		}
 		if h == nil || !w.IsMod[h] || len(h.Blocks) == 0 {
 			return false
 		}
@@ -1507,4 +1544,29 @@ func rawParamOf(v ssa.Value, h *ssa.Function) *ssa.Parameter {
 		}
 	}
 	return nil
+}
+
+// rangeValueOfNonNilMap: v is the value variable of `for _, v := range x.field` over a map
+// field into which no nil is ever stored.
+func (w *World) rangeValueOfNonNilMap(v ssa.Value) bool {
+	ex, ok := stripIface(w.resolveLoad(v)).(*ssa.Extract)
+	if !ok || ex.Index != 2 {
+		return false
+	}
+	nx, ok := ex.Tuple.(*ssa.Next)
+	if !ok {
+		return false
+	}
+	rg, ok := nx.Iter.(*ssa.Range)
+	if !ok {
+		return false
+	}
+	_, fld, isF := fieldLoad(w.resolveLoad(rg.X))
+	if !isF {
+		return false
+	}
+	if _, isMap := fld.Type().Underlying().(*types.Map); !isMap {
+		return false
+	}
+	return w.mapNeverHoldsNil(fld)
 }
